@@ -2581,6 +2581,7 @@ void start_new_file (int fd, const char* pre_text) {
   last_function_context = -1;
   refused_function_contexts = 0;
   current_function_context = 0;
+  function_flag = 0;		/* a compilation that stopped right after "(:" must not affect the next one */
   cur_lbuf = &head_lbuf;
   cur_lbuf->outptr = cur_lbuf->buf_end = outptr = cur_lbuf->buf + (DEFMAX >> 1);
 
